@@ -760,6 +760,63 @@ impl DiscoveryDB {
       .collect()
   }
 
+  // The remote endpoints we currently know on a topic, whatever their
+  // participant. Locators are filled in like update_subscription() and
+  // update_publication() do.
+  pub fn external_readers_on_topic(&self, topic_name: &str) -> Vec<DiscoveredReaderData> {
+    self
+      .external_topic_readers
+      .values()
+      .filter(|drd| drd.subscription_topic_data.topic_name() == topic_name)
+      .map(|drd| {
+        let (unicast, multicast) =
+          self.default_locators_of(drd.reader_proxy.remote_reader_guid.prefix);
+        DiscoveredReaderData {
+          reader_proxy: ReaderProxy::from(RtpsReaderProxy::from_discovered_reader_data(
+            drd, &unicast, &multicast,
+          )),
+          ..drd.clone()
+        }
+      })
+      .collect()
+  }
+
+  pub fn external_writers_on_topic(&self, topic_name: &str) -> Vec<DiscoveredWriterData> {
+    self
+      .external_topic_writers
+      .values()
+      .filter(|dwd| dwd.publication_topic_data.topic_name == topic_name)
+      .map(|dwd| {
+        let (unicast, multicast) =
+          self.default_locators_of(dwd.writer_proxy.remote_writer_guid.prefix);
+        DiscoveredWriterData {
+          writer_proxy: WriterProxy::from(RtpsWriterProxy::from_discovered_writer_data(
+            dwd, &unicast, &multicast,
+          )),
+          ..dwd.clone()
+        }
+      })
+      .collect()
+  }
+
+  fn default_locators_of(
+    &self,
+    guid_prefix: GuidPrefix,
+  ) -> (
+    Vec<crate::structure::locator::Locator>,
+    Vec<crate::structure::locator::Locator>,
+  ) {
+    self
+      .find_participant_proxy(guid_prefix)
+      .map(|pp| {
+        (
+          pp.default_unicast_locators.clone(),
+          pp.default_multicast_locators.clone(),
+        )
+      })
+      .unwrap_or_default()
+  }
+
   pub fn readers_on_topic_and_participant(
     &self,
     topic_name: &str,
